@@ -70,7 +70,7 @@ type spec[TV any] struct {
 	Init       []TV
 	W2         []update[TV]
 	WarmRead   bool
-	CacheState int // 0 as the writers left it, 1 L2 cleared (L1 MRU only), 2 node entries dropped from L1+L2
+	CacheState int // 0 as the writers left it, 1 L2 cleared (L1 MRU only), 2 node entries dropped from L1+L2, 3 dropped + re-read + L1-only eviction (L1 miss, L2 hit)
 	AWrite     bool
 	Steps      []step
 	End        string // rollback | commit | none | otherWrite
@@ -145,7 +145,7 @@ func genSpec[TV any](t *rapid.T, k kind[TV], m mode) spec[TV] {
 		}
 	}
 	s.WarmRead = rapid.Bool().Draw(t, "warmRead")
-	s.CacheState = rapid.SampledFrom([]int{0, 0, 1, 2}).Draw(t, "cacheState")
+	s.CacheState = rapid.SampledFrom([]int{0, 0, 1, 2, 3, 3}).Draw(t, "cacheState")
 	s.AWrite = m == modeOtherWrite || rapid.Bool().Draw(t, "aWrite")
 	ns := rapid.IntRange(1, 4).Draw(t, "nSteps")
 	for i := 0; i < ns; i++ {
@@ -499,6 +499,15 @@ func runSpec[TV any](k kind[TV], s spec[TV], m mode, g gates) (out outcome) {
 		e.L2.Clear(txh.Ctx)
 	case 2:
 		dropNodeCaches(e)
+	case 3:
+		// the node caches are lost (restart of the cache service / expiry), a reader loads the nodes from the blob
+		// store again (L2 then holds current copies), the process L1 cache evicts them: A takes an L1 miss + L2 hit
+		dropNodeCaches(e)
+		if why, _ := readAll("reader after the cache loss", false, true, []int{apiValue}); why != "" {
+			out.harness = "precondition (no mutation happened yet): " + why
+			return
+		}
+		e.EvictL1Only()
 	}
 
 	// ---- A: read, mutate in place, maybe read again.
